@@ -368,7 +368,35 @@ def units_consistency(env):
         p.model.add_subsystem("AS", AerostructPoint(surfaces=[s]))
         p.setup()
         collect(p)
+        # ground effect (height above the ground) and the atmosphere group feeding a performance group
+        g1 = surface(name="wing", nx=2, ny=3, symmetry=True, groundplane=True)
+        p = om.Problem(reports=False)
+        gsx.aero_model([g1])(p.model)
+        p.setup()
+        collect(p)
+        import openaerostruct.common.atmos_group as AG
+        from openaerostruct.functionals.total_performance import TotalPerformance
+        p = om.Problem(reports=False)
+        p.model.add_subsystem("atmos", AG.AtmosGroup())
+        p.model.add_subsystem("tp", TotalPerformance(surfaces=[s], user_specified_Sref=False, internally_connect_fuelburn=True))
+        try:
+            p.setup()
+        except Exception:
+            pass                                    # (ambiguous promoted defaults do not matter for the declarations)
+        collect(p)
     bad = []
+    # the documented physical dimension of the quantities a user sets (user guide: flight conditions and weights)
+    documented = {"height_agl": "m", "alpha": "deg", "beta": "deg", "v": "m/s", "rho": "kg/m**3", "re": "1/m", "cg": "m", "omega": "rad/s",
+                  "altitude": "ft", "speed_of_sound": "m/s", "W0": "kg", "R": "m", "CT": "1/s", "empty_cg": "m", "load_factor": None, "Mach_number": None}
+    for var, want in documented.items():
+        for u in acc.get(var, {}):
+            if (u is None) != (want is None):
+                bad.append("%s: declared with units %s in %s, documented as %s" % (var, u, sorted(acc[var][u])[:2], want))
+            elif u is not None:
+                try:
+                    unit_conversion(u, want)
+                except Exception:
+                    bad.append("%s: declared in %s (%s), documented as %s" % (var, u, sorted(acc[var][u])[:2], want))
     for var, d in sorted(acc.items()):
         if None in d and len(d) > 1:
             bad.append("%s: no units in %s, %s elsewhere" % (var, sorted(d[None])[:3], sorted(k for k in d if k)[:2]))
